@@ -79,10 +79,10 @@ namespace ratio
         }
     }
 
-    void flaw::add_resolver(resolver &r)
+    void flaw::add_resolver(resolver &r, const bool &rho_implies_phi)
     {
         // the activation of the resolver activates (and solves!) the flaw..
-        if (!slv.get_sat_core().new_clause({!r.rho, phi}))
+        if (rho_implies_phi && !slv.get_sat_core().new_clause({!r.rho, phi}))
             throw unsolvable_exception();
         resolvers.push_back(&r);
         slv.new_resolver(r);
